@@ -1,5 +1,6 @@
 import TabulaModel.Util
 import TabulaModel.Model.CSParser
+import TabulaModel.Model.LexPos
 /-!
 Line protocol of property C06.
 
@@ -11,6 +12,15 @@ Line protocol of property C06.
   `<code><hex value>` per token (`C` comment, `K` keyword, `I` integer, `F` real,
   `S` string, `H` hex string digits, `N` name, `[` `]` `D` `d` delimiters,
   `R`), then `eof` or `err`.
+
+* `c06.lexp <hex>` — the same run of `NextToken` calls with `Token.Pos` and `Token.SkippedBytes`:
+  one `<code><hex value>@<Pos>+<hex SkippedBytes>` per token (the `TokenEOF` token included, as
+  `E-@…`), then `eof` or `err`.
+* `c06.win <hex>` — `core.NewParser(r)`, then `ParseObject()` until it fails: the parser's window
+  `<currentToken>|<peekToken>|<0/1: p.err != nil>` (tokens as in `c06.lex`, `nil` for a nil pointer)
+  after `NewParser` and after every successful call, then `eof` or `err`.
+* `c06.operand <hex>` — `contentstream.NewParser(b).parseOperand()` (hook `VerifParseOperand`):
+  `<operand> <p.pos after the call>` or `err`.
 
 Objects are s-expressions with hex atoms:
 `n | t | f | i<decimal> | r<decimal> | s<hex> | /<hex> | [a,b,…] |
@@ -98,6 +108,29 @@ def lexLoop : Nat → Str → List String → List String
 
 def lexLine (inp : Str) : String := " ".intercalate (lexLoop (inp.length + 2) inp [])
 
+def lexEndText : LexEnd → String
+  | .eof => "eof" | .err => "err" | .fuel => "noprogress"
+
+def lexpLine (inp : Str) : String :=
+  let r := lexTokens inp
+  " ".intercalate (r.1.map (fun pt => tokText pt.tok ++ "@" ++ toString pt.pos ++ "+" ++ hexS pt.skipped) ++
+    [lexEndText r.2])
+
+def optTokText : Option Token → String
+  | none => "nil"
+  | some t => tokText t
+
+def winLine (inp : Str) : String :=
+  let r := windowTrace inp
+  let e := match r.2 with | some .eof => "eof" | some .err => "err" | none => "noprogress"
+  " ".intercalate (r.1.map (fun w => optTokText w.cur ++ "|" ++ optTokText w.peek ++ "|" ++
+    (if w.err then "1" else "0")) ++ [e])
+
+def operandLine (inp : Str) : String :=
+  match csOperandAt inp with
+  | none => "err"
+  | some (o, pos) => sexpr o ++ " " ++ toString pos
+
 def handle (op : String) (args : List String) : String :=
   match op, args with
   | "c06.obj", [h] => match unhex h with
@@ -106,6 +139,12 @@ def handle (op : String) (args : List String) : String :=
     | some b => csLine (toStr b) | none => "bad-op"
   | "c06.lex", [h] => match unhex h with
     | some b => lexLine (toStr b) | none => "bad-op"
+  | "c06.lexp", [h] => match unhex h with
+    | some b => lexpLine (toStr b) | none => "bad-op"
+  | "c06.win", [h] => match unhex h with
+    | some b => winLine (toStr b) | none => "bad-op"
+  | "c06.operand", [h] => match unhex h with
+    | some b => operandLine (toStr b) | none => "bad-op"
   | _, _ => "bad-op"
 
 end Tabula.C06H
